@@ -4,6 +4,7 @@ import json
 import resource
 import signal
 import sys
+import time
 import traceback
 
 
@@ -42,6 +43,7 @@ def main(argv):
             fh.write(json.dumps({"start": i}) + "\n")
             fh.flush()
             signal.alarm(timeout)
+            t0 = time.time()
             try:
                 res = mod.run_case(cases[i])
             except CaseTimeout:
@@ -52,6 +54,7 @@ def main(argv):
                 res = {"harness_error": traceback.format_exc()}
             finally:
                 signal.alarm(0)
+            res["_t"] = round(time.time() - t0, 2)
             fh.write(json.dumps({"i": i, "res": res}, default=str) + "\n")
             fh.flush()
 
